@@ -448,7 +448,11 @@ impl<'a, T: QueryToRelationTranslator + Copy + Clone> VisitedQueryRelations<'a, 
         // TODO consider more tables
         // For now, only consider the first element
         // It should eventually be cross joined as described in: https://www.postgresql.org/docs/current/queries-table-expressions.html
-        self.try_from_table_with_joins(&tables_with_joins[0])
+        self.try_from_table_with_joins(
+            tables_with_joins
+                .first()
+                .ok_or(Error::other("A SELECT without FROM is not supported"))?,
+        )
     }
 
     /// Extracts named expressions from the from relation and the select items
